@@ -125,7 +125,7 @@ def _add_status(new, pruning, gparams, wit):
     new.setdefault("UNGUARDED", wit)
 
 
-@rule("EFF2", ["C04"])
+@rule("EFF2", ["C04", "C05"])
 def eff2(ctx, pid):
     """Every call chain from a public entry to a db delete passes the true arm of a test on is_pruning."""
     st = delete_status(ctx)
